@@ -388,9 +388,10 @@ PROPS = {
                    'LookupBase twins (cache-soundness invariant and result clauses, C05/C08), _verify/verify_changed/VB_* and the VerifyingBase '
                    'twins (generation snapshot, C06), SB_extends/SB__call__/SB_providedBy/SB_implementedBy and the SpecificationBase twins '
                    '(membership in _implied, C02), getObjectSpecification and providedBy against the postconditions of the Python functions, '
-                   'implementedBy as fast path in front of the Python fallback (C01); more pairs are listed in the evidence as they are added. '
+                   'implementedBy as fast path in front of the Python fallback, OSD_descr_get against ObjectSpecificationDescriptor.__get__ and '
+                   'CPB_descr_get against ClassProvidesBase.__get__ (C01); more pairs are listed in the evidence as they are added. '
                    'The ownership obligations of the C functions (see C11) are discharged as part of this check.',
-        level_note='equivalence of the twins that are not listed as verified pairs is bounded (fixed programs and argument pool): the two descriptors (OSD_descr_get, CPB_descr_get), IB__init__, and the agreement of the Python '
+        level_note='equivalence of the twins that are not listed as verified pairs is bounded (fixed programs and argument pool): IB__init__ (the C code also clears the specification slots, the Python code does not: re-initialising a live interface is not a supported operation), and the agreement of the Python '
                    'implementedBy with the C fast path on its two fast cases; the CPython API '
                    'models of the C contract modules are trusted.',
         explanation='differential execution of generated programs under both implementations; ownership obligations of the C twins discharged',
